@@ -7,11 +7,25 @@ def field_writers(facts, adt, field):
     direct assignment to a place through that field, a mutable borrow of a place through that field
     (then classified by the consumer), an aggregate that constructs the ADT, or a call returning into it."""
     out = []
+    # sub-structs that group `adt.field` with other frozen fields (flattened by the fact loader): a write of the whole
+    # group is a write of each member
+    groups = {S for (S, f_), (P, role) in facts.aliases.items() if (P, role) == (adt, field)}
+    embeds = {k for k, S in facts.embeds.items() if S in groups}
     for fn in facts.fns.values():
         if is_derive(fn):
             continue
         for bi, si, place, rv in fn.assigns():
             fs = place_fields(place)
+            if groups:
+                whole = bool(fs) and fs[-1] in embeds
+                if not fs and any(e["k"] == "deref" for e in place["proj"]):
+                    ty = fn.locals[place["local"]]["ty"]
+                    inner = ty.get("inner", ty) if ty.get("k") == "ref" else ty
+                    whole = inner.get("path") in groups
+                if whole:
+                    out.append((fn.name, bi, fn.loc(bi, si), "assign"))
+                if rv["k"] == "aggregate" and rv.get("agg") == "adt" and rv["adt"] in groups:
+                    out.append((fn.name, bi, fn.loc(bi, si), "construct"))
             if fs and fs[-1] == (adt, field):
                 out.append((fn.name, bi, fn.loc(bi, si), "assign"))
             elif (adt, field) in fs:
